@@ -416,6 +416,7 @@ impl Sched {
             }
             let gw = g.global_writes;
             let steps_now = g.steps;
+            crate::progress("");
             let mut runnable: Vec<usize> = vec![];
             for (i, th) in g.threads.iter().enumerate() {
                 let ok = match th.status {
